@@ -47,6 +47,15 @@ def _account_stream(stats, plan, tr):
     elif fam == 'c12-tail':
         stats.steps += 1
         stats.probe('tail_' + plan['knobs']['tail_kind'])
+    elif fam == 'c17-multi':
+        stats.steps += sum(1 + len(it['exprs']) for it in plan['items'])
+        stats.probe('querent_reused_over_messages', len(plan['items']))
+        has2 = set('2' in it['cls'] for it in plan['items'])
+        if len(has2) == 2:
+            stats.probe('querent_sees_section2_present_and_absent')
+        for it in plan['items']:
+            if it.get('fault'):
+                stats.faults_fired['data:' + it['fault']['region']] = stats.faults_fired.get('data:' + it['fault']['region'], 0) + 1
     elif fam == 'c17':
         stats.steps += 1 + len(plan.get('exprs', []))
         f = plan['items'][0].get('fault')
@@ -104,12 +113,14 @@ def c12(tier):
 def c17(tier):
     return runner.check_main(
         'C17', tier, streamsim, 'streamsim',
-        [('c17', 900, 20000), ('c17-stream', 500, 12000)],
+        [('c17', 900, 20000), ('c17-stream', 500, 12000), ('c17-multi', 500, 12000)],
         'exploration',
         'one pool message with seeded damage confined to the data section (after its 4-octet header) and section '
         '5 {bit, byte, 0xFF run, 0x00 run, random, stop signature}, decoded metadata-only and compared parameter '
         'by parameter with the undamaged metadata-only decode, plus 12 seeded %name / %k.name / malformed '
-        'expressions per run; and streams of such messages scanned metadata-only (API, info -m, info -c, split); '
+        'expressions per run (asked of the metadata-only and of the fully decoded message); one decoder and ONE '
+        'querent object re-used over 2..5 messages of mixed editions / section-2 presence / decode modes; and '
+        'streams of such messages scanned metadata-only (API, info -m, info -c, split); '
         'distinct = (message class, damaged region, expression classes) resp. stream shape; non-trivial = damage '
         'present',
         ASSUME_STREAM + ['the %name lookup clauses are sampled against the section contents and, for synthetic '
@@ -190,13 +201,13 @@ ASSUME_HIST = [
     'text renderings are compared after normalising the tables root directory in the first line (alias root)',
 ]
 
-HIST_POOL = {'n_corpus': 45, 'n_synth': 35}
+HIST_POOL = {'n_corpus': 60, 'n_synth': 35}
 
 
 def c13(tier):
     return runner.check_main(
         'C13', tier, histsim, 'histsim',
-        [('c13', 170, 14000), ('c13-io', 90, 6000)],
+        [('c13', 300, 14000), ('c13-io', 220, 8000)],
         'exploration',
         'seeded histories of 5..40 (thorough 60) operations {decode, decode_info, failing decode, render x4, data '
         'query, metadata query, script, double wire, encode, failing encode, subset+encode, table lookup, restart, '
@@ -205,7 +216,7 @@ def c13(tier):
         'through the alias root}; a case is one history; distinct = (family, limit, client configs, op-kind '
         'sequence); non-trivial = an eviction, failed operation, fired I/O fault or restart occurred',
         ASSUME_HIST, _account_hist, extra_cov=_extra_hist,
-        pool_kwargs=None if tier == 'thorough' else HIST_POOL, design_ref='5.2')
+        pool_kwargs=None if tier == 'thorough' else dict(HIST_POOL, n_ops=70), design_ref='5.2')
 
 
 def c08(tier):
